@@ -35,6 +35,7 @@ import (
 	"strconv"
 	"strings"
 	"sync"
+	"sync/atomic"
 	"syscall"
 	"time"
 
@@ -151,8 +152,18 @@ func (a *c12Alg) FindChain(n *big.Int) (addchain.Chain, error) {
 // c12Writer receives the logger output; log.Logger issues one Write per Printf, serialised.
 type c12Writer struct{ log *c12Log }
 
+// c12InWrite counts goroutines currently inside the logger's writer; c12Overlap records that two were
+// there at once (log.Logger serialises the writes of ONE logger: the executor must not call the
+// caller's writer from several goroutines at a time — it need not be safe for that).
+var c12InWrite, c12Overlap int32
+
 func (w c12Writer) Write(p []byte) (int, error) {
 	l := w.log
+	if atomic.AddInt32(&c12InWrite, 1) > 1 {
+		atomic.StoreInt32(&c12Overlap, 1)
+	}
+	defer atomic.AddInt32(&c12InWrite, -1)
+	runtime.Gosched()
 	if l.yield {
 		runtime.Gosched()
 	}
@@ -445,6 +456,9 @@ func c12Case(g *Gen, k, L int, perm []int, n *big.Int, kinds []int) {
 		if o.outcome == "timeout" {
 			c12Timeouts++
 		}
+	}
+	if atomic.LoadInt32(&c12Overlap) != 0 && !g.notesViolation() {
+		g.Notes = append(g.Notes, fmt.Sprintf("VIOLATION: the logger's writer was entered by two goroutines at once (k=%d L=%d): executions share the caller's writer without serialising it", k, L))
 	}
 	g.Line("c12", fmt.Sprint(k), fmt.Sprint(L), encIntSlice(perm), strings.Join(o.trace, ","),
 		b01(o.resEq), b01(o.tgtSame), fmt.Sprint(o.maxRun), o.outcome, n.String(), encIntSlice(kinds))
